@@ -433,7 +433,7 @@ class Problem:
             return u
         return np.array(u)
 
-    def like_scalar(self, arg):
+    def like_scalar(self, arg, tilt=0.0):
         with self._lock:
             self.calls += 1
         x = self._unpack(arg)
@@ -441,18 +441,20 @@ class Problem:
             import time as _t
             _t.sleep(0.0004 * (int(abs(float(x[0])) * 1e6) % 4))      # point-dependent run time
         ll = self.f(x)
+        if tilt:
+            ll = ll + tilt * float(x[0])       # only reached through likelihood_kwargs (configurations with lik_tilt)
         b = blob_of(self.cfg['blob'], x, ll)
         if self.cfg.get('lik_inplace') and isinstance(arg, np.ndarray):
             arg[...] = 0.25                # a likelihood that scribbles over its argument
         return ll if b is None else (ll,) + b
 
-    def like_vector(self, args):
+    def like_vector(self, args, tilt=0.0):
         if isinstance(args, dict):
             n = len(next(iter(args.values())))
             rows = [{k: v[i] for k, v in args.items()} for i in range(n)]
         else:
             rows = list(args)
-        res = [self.like_scalar(r) for r in rows]
+        res = [self.like_scalar(r, tilt=tilt) for r in rows]
         if self.cfg.get('lik_inplace') and isinstance(args, np.ndarray):
             args[...] = 0.25
         if self.cfg['blob'] == 'none':
@@ -475,6 +477,8 @@ class Problem:
         else:
             x = [float(v) for v in u]
         ll = self.f(x)
+        if self.cfg.get('lik_tilt'):
+            ll = ll + self.cfg['lik_tilt'] * float(x[0])
         return ll, blob_of(self.cfg['blob'], x, ll)
 
 
@@ -496,6 +500,8 @@ def build_sampler(nautilus, cfg, tr, prob, filepath=None, resume=False):
         kw['pool'] = (FakePool(cfg['pool_l'], cfg['seed'] + 1), kw.get('pool', (None, None))[1])
     if cfg.get('neural_network_kwargs'):
         kw['neural_network_kwargs'] = cfg['neural_network_kwargs']
+    if cfg.get('lik_tilt'):
+        kw['likelihood_kwargs'] = dict(tilt=cfg['lik_tilt'])      # a keyword with a default, overridden through the sampler
     like = prob.like_vector if cfg.get('vectorized') else prob.like_scalar
     if cfg.get('prior_object'):
         pr = nautilus.Prior()
